@@ -42,6 +42,9 @@ def field_attr_variants(rnd):
         ("rename+skip_serializing_if", None, "Option<i32>"),
         ("doc-mentions-skip", ['#[doc = "skip this, rename = \\"nope\\""]'], "i32"),
         ("skip+default", ["#[serde(skip, default)]"], "i32"),
+        # other spellings of the same attribute grammar
+        ("rename-raw-string", ['#[serde(rename = r#"raw"quoted\\name"#)]'], "i32"),
+        ("rename-no-spaces-trailing-comma", ['#[serde(rename="tight",)]'], "i32"),
         # one-directional skips and conversion hooks: the statement makes a field absent iff it carries #[serde(skip)] itself, so these
         # keep the field (the oracle crate is compiled without them to learn the wire name)
         ("skip_serializing", ["#[serde(skip_serializing)]"], "i32"),
